@@ -24,7 +24,8 @@ Definition hash_table_pairs : list (list N * list N) :=
   [ (c_sm3_K, sm3_K_spec); (c_sm3_iv, sm3_iv); (c_sm3sse_K, sm3_K_spec); (c_sm3sse_iv, sm3_iv);
     (c_sha1_K, sha1_K_spec); (c_sha1_iv, H1);
     (c_sha256_K, K256); (c_sha256_iv, H256); (c_sha224_iv, H224);
-    (c_sha512_K, K512); (c_sha512_iv, H512); (c_sha384_iv, H384) ].
+    (c_sha512_K, K512); (c_sha512_iv, H512); (c_sha384_iv, H384);
+    (c_sha512_224_iv, H512_224); (c_sha512_256_iv, H512_256) ].
 
 Fixpoint mismatches_from (k : nat) (l : list (list N * list N)) : list (nat * nat * N * N) :=
   match l with
@@ -57,7 +58,8 @@ Theorem hash_tables_ok :
   c_sm3_K = sm3_K_spec /\ c_sm3_iv = sm3_iv /\ c_sm3sse_K = sm3_K_spec /\ c_sm3sse_iv = sm3_iv /\
   c_sha1_K = sha1_K_spec /\ c_sha1_iv = H1 /\
   c_sha256_K = K256 /\ c_sha256_iv = H256 /\ c_sha224_iv = H224 /\
-  c_sha512_K = K512 /\ c_sha512_iv = H512 /\ c_sha384_iv = H384.
+  c_sha512_K = K512 /\ c_sha512_iv = H512 /\ c_sha384_iv = H384 /\
+  c_sha512_224_iv = H512_224 /\ c_sha512_256_iv = H512_256.
 Proof.
   pose proof (mismatches_from_nil 0 hash_table_pairs hash_tables_no_mismatch) as H.
   unfold hash_table_pairs in H.
